@@ -277,6 +277,7 @@ def process_byte_sized_array(
         except SizeConstraintExceededError as error:
             if abort_on_error or error.constraint != array_size_constraint:
                 raise error
+            size_constraints.abandon_inner(array_size_constraint)
             yield WarningEvent(error=error)
             return array_size_constraint.size_already, None
 
@@ -407,6 +408,7 @@ def process_tpm2b(tpm_type, path, size_constraints=None, abort_on_error=True):
     except SizeConstraintExceededError as error:
         if abort_on_error or error.constraint != tpm2b_size_constraint:
             raise error
+        size_constraints.abandon_inner(tpm2b_size_constraint)
         yield WarningEvent(error=error)
         return size_size + tpm2b_size_constraint.size_already, None
 
